@@ -1,13 +1,16 @@
 //! Notified-state harness (C20): drives `notified::{State, Once, Stream}` of BOTH zlink-tokio and
 //! zlink-smol through one operation list, poll by poll with a no-op waker and no runtime.
-//! stdin: one JSON case per line `{"id":n,"ops":[["set",v],["sub"],["poll",s],["dropsub",s],
-//! ["dropstate"],["notify",v],["dropnotifier"],["pollonce"]]}`;
+//! A State is Clone (a clone is another handle to the same channel with its own `value` copy):
+//! the scenario keeps a vector of handles, handle 0 = State::new(0).
+//! stdin: one JSON case per line `{"id":n,"ops":[["set",h,v],["get",h],["sub",h],["poll",s],
+//! ["dropsub",s],["clone",h],["drophandle",h],["notify",v],["dropnotifier"],["pollonce"]]}`;
 //! stdout: `{"id":n,"tokio":[[..],..],"smol":[[..],..]}` with one canonical result per operation:
 //!   [1,g]      set returned; g = State::get() afterwards
 //!   [2,p,v,c]  Ready(Some(reply)): p = 1 when parameters are present, v = the value,
 //!              c = 0/1/2 for continues None / Some(false) / Some(true)
 //!   [3] Pending   [4] Ready(None)   [5] no such object (already dropped / never created)
 //!   [6] the operation panicked      [7,k] subscribed, k = index of the new subscriber
+//!   [9,g]      get() returned g              [10,k] cloned, k = index of the new handle
 //!   [0] done (drops, notify)
 use serde_json::{json, Value};
 use std::io::{BufRead, Write};
@@ -39,7 +42,7 @@ macro_rules! driver {
                     }
                 }
             }
-            let mut state: Option<nt::State<u64, u64>> = Some(nt::State::new(0));
+            let mut handles: Vec<Option<nt::State<u64, u64>>> = vec![Some(nt::State::new(0))];
             let (once, once_stream) = nt::Once::<u64>::new();
             let mut once = Some(once);
             let mut once_stream = once_stream;
@@ -48,12 +51,12 @@ macro_rules! driver {
             for op in ops {
                 let a = op.as_array().unwrap();
                 let arg = a.get(1).and_then(|x| x.as_u64()).unwrap_or(0);
+                let arg2 = a.get(2).and_then(|x| x.as_u64()).unwrap_or(0);
                 let r = catch_unwind(AssertUnwindSafe(|| match a[0].as_str().unwrap() {
-                    "set" => match state.as_mut() {
-                        None => vec![5],
-                        Some(st) => {
+                    "set" => match handles.get_mut(arg as usize) {
+                        Some(Some(st)) => {
                             {
-                                let mut fut = std::pin::pin!(st.set(arg));
+                                let mut fut = std::pin::pin!(st.set(arg2));
                                 match poll_once(fut.as_mut()) {
                                     Poll::Ready(()) => {}
                                     Poll::Pending => return vec![3],
@@ -61,13 +64,33 @@ macro_rules! driver {
                             }
                             vec![1, st.get()]
                         }
+                        _ => vec![5],
                     },
-                    "sub" => match state.as_ref() {
-                        None => vec![5],
-                        Some(st) => {
+                    "get" => match handles.get(arg as usize) {
+                        Some(Some(st)) => vec![9, st.get()],
+                        _ => vec![5],
+                    },
+                    "sub" => match handles.get(arg as usize) {
+                        Some(Some(st)) => {
                             subs.push(Some(st.stream()));
                             vec![7, subs.len() as u64 - 1]
                         }
+                        _ => vec![5],
+                    },
+                    "clone" => match handles.get(arg as usize) {
+                        Some(Some(st)) => {
+                            let c = st.clone();
+                            handles.push(Some(c));
+                            vec![10, handles.len() as u64 - 1]
+                        }
+                        _ => vec![5],
+                    },
+                    "drophandle" => match handles.get_mut(arg as usize) {
+                        Some(h @ Some(_)) => {
+                            *h = None;
+                            vec![0]
+                        }
+                        _ => vec![5],
                     },
                     "poll" => match subs.get_mut(arg as usize) {
                         Some(Some(s)) => poll(s),
@@ -79,13 +102,6 @@ macro_rules! driver {
                             vec![0]
                         }
                         _ => vec![5],
-                    },
-                    "dropstate" => match state.take() {
-                        Some(st) => {
-                            drop(st);
-                            vec![0]
-                        }
-                        None => vec![5],
                     },
                     "notify" => match once.take() {
                         Some(o) => {
